@@ -23,7 +23,7 @@ function is `concreteRun` in lean/GrogModel/Drv/Build.lean.
 import copy, hashlib, json, os, shutil, subprocess, fnmatch
 from concurrent.futures import ThreadPoolExecutor
 
-ALL_FIXES = {"gateChecks": True, "syncTaint": True, "rerunOnce": True, "minValidate": True, "loadFault": True, "alias": True}
+ALL_FIXES = {"gateChecks": True, "syncTaint": True, "rerunOnce": True, "minValidate": True, "loadFault": True, "checkDeps": True, "alias": True}
 
 
 # ------------------------------------------------------------------------------------------------
@@ -730,7 +730,7 @@ def model_request(hist, fixes=ALL_FIXES, force_minimal=None):
             minimal = s.get("minimal", False) if (force_minimal is None or s.get("pin_mode")) else force_minimal
             steps.append({"k": "build", "enableCache": s.get("enable_cache", True), "minimal": minimal,
                           "order": selected(ws, s["patterns"]), "watch": watch, "labels": sorted(ws["targets"])})
-    return {"op": "build.simulate", "fx": {k: fixes[k] for k in ("gateChecks", "syncTaint", "rerunOnce", "minValidate", "loadFault")},
+    return {"op": "build.simulate", "fx": {k: fixes.get(k, True) for k in ("gateChecks", "syncTaint", "rerunOnce", "minValidate", "loadFault", "checkDeps")},
             "files": files, "steps": steps}
 
 
@@ -799,7 +799,8 @@ def compare(hist, real, model, multiset=True):
 # ------------------------------------------------------------------------------------------------
 
 def gen_ws(rng, n=None, aliases=True, dirs=True, multi_out=True, nocache_p=0.0, checks_p=0.0, split_p=0.1, shared_p=0.25, dir_p=0.3,
-           outless_p=0.08, tool_p=0.0, multicheck=False, alias_p=0.35, alias2_p=0.2, link_p=0.5, kind_choices=None, stamp_p=0.2):
+           outless_p=0.08, tool_p=0.0, multicheck=False, alias_p=0.35, alias2_p=0.2, link_p=0.5, kind_choices=None, stamp_p=0.2,
+           depcheck_p=0.0):
     """layered DAG of n targets (dependencies point to earlier targets), 1-2 targets per package"""
     n = n or rng.randint(2, 6)
     ws = {"targets": {}, "aliases": {}, "files": {}, "links": {}}
@@ -879,6 +880,16 @@ def gen_ws(rng, n=None, aliases=True, dirs=True, multi_out=True, nocache_p=0.0, 
                     t["sets"].append([flag, "ok\n"])
                 else:
                     ws["files"][flag] = "ok\n"
+        if rng.random() < depcheck_p:
+            # an output check that inspects a file output of a direct dependency (a check is a shell command run in the
+            # package: it may read whatever the target's command may read)
+            cands = []
+            for d_ in deps:
+                rd = resolve_alias(ws, d_)
+                if rd in ws["targets"] and not ws["targets"][rd].get("split"):
+                    cands += [out_path(ws["targets"][rd], o_) for o_ in ws["targets"][rd]["outs"] if not o_["dir"]]
+            if cands:
+                t["checks"].append({"flag": rng.choice(sorted(cands)), "exp": None, "form": rng.randint(0, 5)})
         if rng.random() < tool_p:
             # a checked-in script that is both an input and the bin_output (docs/topics/binary-outputs)
             tool = "tool%d.sh" % i
@@ -1201,6 +1212,8 @@ def gen_history(rng, family="mixed", nsteps=None, full=False, minimal=None):
         kw.update(outless_p=0.4, nocache_p=0.25)
     if family == "tool":
         kw.update(tool_p=0.5)
+    if family == "depchecks":
+        kw.update(depcheck_p=0.8, n=rng.randint(3, 5), outless_p=0.0)
     if family == "swap":
         kw.update(split_p=0.6, dirs=False)
     if family == "shared":
@@ -1572,7 +1585,7 @@ def gen_history(rng, family="mixed", nsteps=None, full=False, minimal=None):
                 versions.append(cur)
                 build(["//..."] if rng.random() < 0.5 else [x])
                 continue
-        if family in ("wipe", "aliaswipe") and r < (0.75 if family == "wipe" else 0.7):
+        if family in ("wipe", "aliaswipe", "depchecks") and r < (0.75 if family != "aliaswipe" else 0.7):
             # fresh-checkout shape: every declared output disappears (files only, directories of file outputs stay),
             # or the sources go back to an earlier version (outputs in the workspace are then stale w.r.t. the cache hit)
             if r < 0.45 or len(versions) < 2:
@@ -1734,6 +1747,40 @@ def gen_swap(rng, nocache=True):
     return {"ws": ws, "algo": rng.choice(["xxh3", "sha256"]),
             "steps": [dict(b), {"k": "edit", "ws": ws2, "writes": [], "what": "swap contents of pa/x.in and pa/y.in"}, dict(b)],
             "tags": ["swap", "oracle-only"]}
+
+
+def gen_samerel(rng):
+    """dependency identity: two dependencies in DIFFERENT packages declare the SAME package-relative output name and copy their
+    one input to it; a third target reads both. The edit swaps the contents of the two inputs, so the two dependencies swap
+    their outputs: the multiset of (package-relative name, digest) records is unchanged, only which dependency produced which
+    changes. (Pre-c2b7f0c the dependant's key did not change: stale cache hit.)"""
+    x, y = "c%d\n" % rng.randint(0, 49), "c%d\n" % rng.randint(50, 99)
+    rel = rng.choice(["out.txt", "same.txt", "gen/o.txt"])
+    pa, pb = rng.choice([("pa", "pb"), ("pa", "pa/sub"), ("p/x", "p/y")])
+
+    def T(pkg, name, globs, deps, outs, split=False):
+        return {"pkg": pkg, "name": name, "globs": globs, "excl": [], "salt": "s%d" % rng.randint(0, 9), "deps": deps,
+                "outs": [{"dir": False, "rel": o} for o in outs], "fp": {}, "nocache": False, "checks": [], "beh": 0, "skip": [],
+                "sets": [], "split": split}
+    ws = {"targets": {}, "aliases": {}, "links": {}, "files": {pa + "/s.in": x, pb + "/s.in": y}}
+    la, lb, lc = lab(pa, "t0"), lab(pb, "t1"), lab("pc", "t2")
+    ws["targets"][la] = T(pa, "t0", ["s.in"], [], [rel], split=True)
+    ws["targets"][lb] = T(pb, "t1", ["s.in"], [], [rel], split=True)
+    ws["targets"][lc] = T("pc", "t2", [], [la, lb], ["res.txt"])
+    if rng.random() < 0.5:
+        ws["targets"][lab("pd", "t3")] = T("pd", "t3", [], [lc], ["top.txt"])
+    b = {"k": "build", "patterns": ["//..."], "minimal": False, "enable_cache": True, "fail_fast": False}
+    steps = [dict(b)]
+    cur = ws
+    for i in range(rng.randint(1, 3)):
+        w2 = copy.deepcopy(cur)
+        w2["files"][pa + "/s.in"], w2["files"][pb + "/s.in"] = cur["files"][pb + "/s.in"], cur["files"][pa + "/s.in"]
+        steps.append({"k": "edit", "ws": w2, "writes": [], "what": "swap contents of %s/s.in and %s/s.in" % (pa, pb)})
+        cur = w2
+        if rng.random() < 0.3:
+            steps.append({"k": "edit", "ws": cur, "writes": [[p_, None] for p_ in sorted(all_out_paths(cur))], "what": "tamper: wipe all declared outputs"})
+        steps.append(dict(b))
+    return {"ws": ws, "algo": rng.choice(["xxh3", "sha256"]), "steps": steps, "tags": ["swap", "samerel"]}
 
 
 def gen_collector(rng):
